@@ -1,7 +1,210 @@
 package simbuild
 
-import "go/ast"
+import (
+	"fmt"
+	"go/ast"
+	"go/token"
+	"go/types"
 
-func (ft *fileTx) t3Func(fd *ast.FuncDecl, fname string) bool { return false }
+	"golang.org/x/tools/go/ast/astutil"
+)
+
+// T3 — the concurrency seam. `go`, channel sends/receives, `range` over a channel,
+// `close` and `select` are rewritten into calls of the cooperative scheduler.
+
+func (ft *fileTx) isChan(e ast.Expr) bool {
+	t := ft.typeOf(e)
+	if t == nil {
+		return false
+	}
+	_, ok := t.Underlying().(*types.Chan)
+	return ok
+}
+
+func (ft *fileTx) t3Func(fd *ast.FuncDecl, fname string) bool {
+	changed := false
+	nGo, nCh := 0, 0
+	// 1. select statements (before their comm clauses are touched by the generic rewrites)
+	astutil.Apply(fd.Body, func(c *astutil.Cursor) bool {
+		sel, ok := c.Node().(*ast.SelectStmt)
+		if !ok {
+			return true
+		}
+		nCh++
+		site := fmt.Sprintf("%s#select%d", fname, nCh)
+		ft.rep.ChanSites = append(ft.rep.ChanSites, site)
+		c.Replace(ft.rewriteSelect(sel))
+		changed = true
+		return true
+	}, nil)
+	// 2. go statements, sends, receives, range over channel, close
+	astutil.Apply(fd.Body, nil, func(c *astutil.Cursor) bool {
+		switch n := c.Node().(type) {
+		case *ast.GoStmt:
+			nGo++
+			site := fmt.Sprintf("%s#go%d", fname, nGo)
+			ft.rep.GoSites = append(ft.rep.GoSites, site)
+			c.Replace(ft.rewriteGo(n, site))
+			changed = true
+		case *ast.SendStmt:
+			nCh++
+			ft.rep.ChanSites = append(ft.rep.ChanSites, fmt.Sprintf("%s#send%d", fname, nCh))
+			ft.needSim = true
+			c.Replace(&ast.ExprStmt{X: &ast.CallExpr{Fun: sel("zsim", "Send"), Args: []ast.Expr{n.Chan, n.Value}}})
+			changed = true
+		case *ast.UnaryExpr:
+			if n.Op == token.ARROW {
+				nCh++
+				ft.rep.ChanSites = append(ft.rep.ChanSites, fmt.Sprintf("%s#recv%d", fname, nCh))
+				ft.needSim = true
+				fn := "Recv"
+				// v, ok := <-ch
+				if as, ok := c.Parent().(*ast.AssignStmt); ok && len(as.Lhs) == 2 && len(as.Rhs) == 1 {
+					fn = "Recv2"
+				}
+				if vs, ok := c.Parent().(*ast.ValueSpec); ok && len(vs.Names) == 2 && len(vs.Values) == 1 {
+					fn = "Recv2"
+				}
+				c.Replace(&ast.CallExpr{Fun: sel("zsim", fn), Args: []ast.Expr{n.X}})
+				changed = true
+			}
+		case *ast.RangeStmt:
+			if ft.isChan(n.X) {
+				nCh++
+				ft.rep.ChanSites = append(ft.rep.ChanSites, fmt.Sprintf("%s#rangechan%d", fname, nCh))
+				c.Replace(ft.rewriteRangeChan(n))
+				changed = true
+			}
+		case *ast.CallExpr:
+			if id, ok := n.Fun.(*ast.Ident); ok && id.Name == "close" && len(n.Args) == 1 && ft.isChan(n.Args[0]) {
+				if obj := ft.pkg.TypesInfo.Uses[id]; obj != nil && obj.Pkg() == nil { // the builtin
+					ft.needSim = true
+					n.Fun = sel("zsim", "Close")
+					changed = true
+				}
+			}
+		}
+		return true
+	})
+	return changed
+}
+
+// go f(a, b)  →  { __a1 := a; __a2 := b; zsim.Go(site, func() { f(__a1, __a2) }) }
+func (ft *fileTx) rewriteGo(g *ast.GoStmt, site string) ast.Stmt {
+	ft.needSim = true
+	call := g.Call
+	var pre []ast.Stmt
+	if _, isLit := call.Fun.(*ast.FuncLit); isLit && len(call.Args) == 0 {
+		return &ast.ExprStmt{X: &ast.CallExpr{Fun: sel("zsim", "Go"), Args: []ast.Expr{strLit(site), call.Fun}}}
+	}
+	newArgs := make([]ast.Expr, len(call.Args))
+	for i, a := range call.Args {
+		v := ft.tmp("a")
+		pre = append(pre, &ast.AssignStmt{Lhs: []ast.Expr{ast.NewIdent(v)}, Tok: token.DEFINE, Rhs: []ast.Expr{a}})
+		newArgs[i] = ast.NewIdent(v)
+	}
+	inner := &ast.CallExpr{Fun: call.Fun, Args: newArgs, Ellipsis: call.Ellipsis}
+	lit := &ast.FuncLit{Type: &ast.FuncType{Params: &ast.FieldList{}}, Body: &ast.BlockStmt{List: []ast.Stmt{&ast.ExprStmt{X: inner}}}}
+	pre = append(pre, &ast.ExprStmt{X: &ast.CallExpr{Fun: sel("zsim", "Go"), Args: []ast.Expr{strLit(site), lit}}})
+	return &ast.BlockStmt{List: pre}
+}
+
+// for v := range ch { body }  →  for { v, __ok := zsim.Recv2(ch); if !__ok { break }; body }
+func (ft *fileTx) rewriteRangeChan(rs *ast.RangeStmt) ast.Stmt {
+	ft.needSim = true
+	okv := ft.tmp("ok")
+	chv := ft.tmp("c")
+	var lhs ast.Expr = ast.NewIdent("_")
+	tok := token.DEFINE
+	if !isBlank(rs.Key) {
+		lhs = rs.Key
+		if rs.Tok == token.ASSIGN {
+			tok = token.ASSIGN
+		}
+	}
+	var first []ast.Stmt
+	if tok == token.ASSIGN {
+		first = append(first, &ast.DeclStmt{Decl: &ast.GenDecl{Tok: token.VAR, Specs: []ast.Spec{&ast.ValueSpec{Names: []*ast.Ident{ast.NewIdent(okv)}, Type: ast.NewIdent("bool")}}}})
+	}
+	first = append(first, &ast.AssignStmt{Lhs: []ast.Expr{lhs, ast.NewIdent(okv)}, Tok: tok, Rhs: []ast.Expr{&ast.CallExpr{Fun: sel("zsim", "Recv2"), Args: []ast.Expr{ast.NewIdent(chv)}}}})
+	first = append(first, &ast.IfStmt{Cond: &ast.UnaryExpr{Op: token.NOT, X: ast.NewIdent(okv)}, Body: &ast.BlockStmt{List: []ast.Stmt{&ast.BranchStmt{Tok: token.BREAK}}}})
+	loop := &ast.ForStmt{Body: &ast.BlockStmt{List: append(first, rs.Body.List...)}}
+	return &ast.BlockStmt{List: []ast.Stmt{
+		&ast.AssignStmt{Lhs: []ast.Expr{ast.NewIdent(chv)}, Tok: token.DEFINE, Rhs: []ast.Expr{rs.X}},
+		loop,
+	}}
+}
+
+// select { case x := <-a: A; case b <- v: B; default: D }  →
+//
+//	{ __c1 := a; __c2 := b; __v2 := v
+//	  switch zsim.Select(hasDefault, zsim.CaseRecv(__c1), zsim.CaseSend(__c2, __v2)) {
+//	  case 0: x := <-__c1; A          (the receive is rewritten to zsim.Recv by the second pass)
+//	  case 1: __c2 <- __v2; B
+//	  default: D } }
+func (ft *fileTx) rewriteSelect(s *ast.SelectStmt) ast.Stmt {
+	ft.needSim = true
+	var pre []ast.Stmt
+	var cases []ast.Expr
+	var clauses []ast.Stmt
+	hasDefault := false
+	idx := 0
+	for _, cl := range s.Body.List {
+		cc := cl.(*ast.CommClause)
+		if cc.Comm == nil {
+			hasDefault = true
+			clauses = append(clauses, &ast.CaseClause{List: nil, Body: cc.Body})
+			continue
+		}
+		chv := ft.tmp("c")
+		var comm ast.Stmt
+		switch c := cc.Comm.(type) {
+		case *ast.SendStmt:
+			vv := ft.tmp("v")
+			pre = append(pre,
+				&ast.AssignStmt{Lhs: []ast.Expr{ast.NewIdent(chv)}, Tok: token.DEFINE, Rhs: []ast.Expr{c.Chan}},
+				&ast.AssignStmt{Lhs: []ast.Expr{ast.NewIdent(vv)}, Tok: token.DEFINE, Rhs: []ast.Expr{c.Value}})
+			cases = append(cases, &ast.CallExpr{Fun: sel("zsim", "CaseSend"), Args: []ast.Expr{ast.NewIdent(chv), ast.NewIdent(vv)}})
+			comm = &ast.SendStmt{Chan: ast.NewIdent(chv), Value: ast.NewIdent(vv)}
+		case *ast.ExprStmt: // <-ch
+			u := c.X.(*ast.UnaryExpr)
+			pre = append(pre, &ast.AssignStmt{Lhs: []ast.Expr{ast.NewIdent(chv)}, Tok: token.DEFINE, Rhs: []ast.Expr{u.X}})
+			cases = append(cases, &ast.CallExpr{Fun: sel("zsim", "CaseRecv"), Args: []ast.Expr{ast.NewIdent(chv)}})
+			comm = &ast.ExprStmt{X: &ast.UnaryExpr{Op: token.ARROW, X: ast.NewIdent(chv)}}
+		case *ast.AssignStmt: // x := <-ch  /  x, ok = <-ch
+			u := c.Rhs[0].(*ast.UnaryExpr)
+			pre = append(pre, &ast.AssignStmt{Lhs: []ast.Expr{ast.NewIdent(chv)}, Tok: token.DEFINE, Rhs: []ast.Expr{u.X}})
+			cases = append(cases, &ast.CallExpr{Fun: sel("zsim", "CaseRecv"), Args: []ast.Expr{ast.NewIdent(chv)}})
+			comm = &ast.AssignStmt{Lhs: c.Lhs, Tok: c.Tok, Rhs: []ast.Expr{&ast.UnaryExpr{Op: token.ARROW, X: ast.NewIdent(chv)}}}
+		}
+		body := append([]ast.Stmt{comm}, cc.Body...)
+		// a declared-but-unused receive variable would not compile; keep Go happy
+		if as, ok := comm.(*ast.AssignStmt); ok && as.Tok == token.DEFINE {
+			for _, l := range as.Lhs {
+				if id, ok := l.(*ast.Ident); ok && id.Name != "_" {
+					body = append([]ast.Stmt{comm, &ast.AssignStmt{Lhs: []ast.Expr{ast.NewIdent("_")}, Tok: token.ASSIGN, Rhs: []ast.Expr{ast.NewIdent(id.Name)}}}, cc.Body...)
+					break
+				}
+			}
+		}
+		clauses = append(clauses, &ast.CaseClause{List: []ast.Expr{&ast.BasicLit{Kind: token.INT, Value: fmt.Sprint(idx)}}, Body: body})
+		idx++
+	}
+	hd := "false"
+	if hasDefault {
+		hd = "true"
+	}
+	args := append([]ast.Expr{ast.NewIdent(hd)}, cases...)
+	sw := &ast.SwitchStmt{Tag: &ast.CallExpr{Fun: sel("zsim", "Select"), Args: args}, Body: &ast.BlockStmt{List: clauses}}
+	return &ast.BlockStmt{List: append(pre, sw)}
+}
+
 func (ft *fileTx) t4Func(fd *ast.FuncDecl, fname string) bool { return false }
-func (ft *fileTx) insertYield(fd *ast.FuncDecl, fname string)  {}
+
+// insertYield puts a pre-emption point at the entry of every function.
+func (ft *fileTx) insertYield(fd *ast.FuncDecl, fname string) {
+	ft.needSim = true
+	ft.rep.YieldSites++
+	y := &ast.ExprStmt{X: &ast.CallExpr{Fun: sel("zsim", "Yield"), Args: []ast.Expr{strLit(fname)}}}
+	fd.Body.List = append([]ast.Stmt{y}, fd.Body.List...)
+}
